@@ -20,6 +20,9 @@ type restorer struct {
 	currentCheckpoint *Metadata
 	// pendingChunks is a set of pending chunks.
 	pendingChunks map[uint64]bool
+	// generation is incremented whenever a restore is started or aborted, so that a chunk that
+	// was being restored in the meantime is not counted for a restore it does not belong to.
+	generation uint64
 }
 
 // Implements Restorer.
@@ -31,6 +34,7 @@ func (rs *restorer) StartRestore(_ context.Context, checkpoint *Metadata) error 
 		return ErrRestoreAlreadyInProgress
 	}
 
+	rs.generation++
 	rs.currentCheckpoint = checkpoint
 	rs.pendingChunks = make(map[uint64]bool)
 	for idx := range checkpoint.Chunks {
@@ -44,6 +48,7 @@ func (rs *restorer) AbortRestore(context.Context) error {
 	rs.Lock()
 	defer rs.Unlock()
 
+	rs.generation++
 	rs.pendingChunks = nil
 	rs.currentCheckpoint = nil
 
@@ -64,6 +69,7 @@ func (rs *restorer) GetCurrentCheckpoint() *Metadata {
 
 // Implements Restorer.
 func (rs *restorer) RestoreChunk(ctx context.Context, idx uint64, r io.Reader) (bool, error) {
+	var generation uint64
 	chunk, err := func() (*ChunkMetadata, error) {
 		rs.Lock()
 		defer rs.Unlock()
@@ -77,6 +83,7 @@ func (rs *restorer) RestoreChunk(ctx context.Context, idx uint64, r io.Reader) (
 			return nil, ErrChunkAlreadyRestored
 		}
 
+		generation = rs.generation
 		return rs.currentCheckpoint.GetChunkMetadata(idx)
 	}()
 	if err != nil {
@@ -97,6 +104,12 @@ func (rs *restorer) RestoreChunk(ctx context.Context, idx uint64, r io.Reader) (
 
 	rs.Lock()
 	defer rs.Unlock()
+
+	// The restore may have been aborted (and another one started) while the chunk was being
+	// restored. In this case the chunk must not be counted as restored.
+	if rs.generation != generation {
+		return false, ErrNoRestoreInProgress
+	}
 
 	// Mark the given chunk as restored.
 	delete(rs.pendingChunks, idx)
